@@ -432,6 +432,7 @@ class Repo(object):
             objflat.classmethod_constructors(tree)
             objflat.plain_local_assignments(tree)
             objflat.splice_starred_displays(tree)
+            objflat.inline_kind_dispatch(tree)
             objflat.split_record_tables(tree)
             objflat.merge_registry(tree)
             objflat._link(tree)
